@@ -77,6 +77,7 @@ func cmdPatternTraces(args []string) {
 	seed := fs.Int64("seed", 1, "seed")
 	worlds := fs.Int("worlds", 3, "fact states per pattern")
 	flagp := fs.Float64("flagp", 0, "probability of ReturnErrOnFailedRuleEvaluation")
+	bystander := fs.Bool("bystander", false, "add a third rule that fires once and touches nothing the other two read (a cycle in which nothing is invalidated)")
 	variants := []string{"fresh", "reloaded", "second", "multi", "json", "sharedctx"}
 	fs.Parse(args)
 	r := rand.New(rand.NewSource(*seed))
@@ -131,6 +132,11 @@ func cmdPatternTraces(args []string) {
 			{Name: "R", HasSal: true, Sal: rsal, When: pc.R.W.expr(), Bare: r.Intn(2) == 0,
 				Then: []*Action{{Kind: "set", Name: "Mark", E: CI(2), Once: true}, {Kind: "retract", Name: "R"}}},
 		}}
+		if *bystander {
+			// its salience lies between, above or below the two: in whichever cycle it fires, what was remembered stays as it is
+			prog.Rules = append(prog.Rules, &Rule{Name: "T", HasSal: true, Sal: []int64{-1, 0, 1, 2}[r.Intn(4)], When: &Bin{Op: "==", L: P("F.Z"), R: P("F.Z")},
+				Then: []*Action{{Kind: "set", Name: "Mark", E: CI(3), Once: true}, {Kind: "retract", Name: "T"}}})
+		}
 		rules, _ := json.Marshal(prog.JS())
 		for k := 0; k < *worlds; k++ {
 			bit := func() int64 { return int64(r.Intn(2)) }
@@ -142,7 +148,7 @@ func cmdPatternTraces(args []string) {
 			c := &Case{ID: id, GRL: prog.GRL(), JSONRules: prog.JSONText(), Parts: prog.Parts(2), RulesJS: rules, Variant: variants[r.Intn(len(variants))], Profile: "pattern", Listener: 1,
 				Counted: json.RawMessage(`{"k":"none"}`), Other: &World{F: &Fact{X: bit(), I: bit(), Arr: []int64{bit(), bit()}, M: map[string]int64{"a": 0, "b": 0},
 					P: &Sub{}, Q: &Sub{}, Spare: &Sub{V: 7, S: "sp"}}, N: bit(), HasN: true},
-				Calls: []CallCfg{{Mode: "exec", World: w, Max: uint64(2 + r.Intn(3)), CancelAt: -1, Flag: r.Float64() < *flagp}}}
+				Calls: []CallCfg{{Mode: "exec", World: w, Max: uint64(2 + r.Intn(3) + map[bool]int{true: 1}[*bystander]), CancelAt: -1, Flag: r.Float64() < *flagp}}}
 			id++
 			var buf bytes.Buffer
 			em := NewEmitter(&buf)
